@@ -17,7 +17,25 @@ import (
 	"pgregory.net/rapid"
 
 	bs "verif/h/bftsim"
+	"verif/h/ev"
 )
+
+// ids of open findings whose input class the generators leave out (ev.Open) so that the search continues behind them
+const (
+	KFPacemaker   = "KF-C15-pacemaker-threshold"
+	KFWrongPhase  = "KF-C15-wrong-phase-commit-wedge"
+	KFStaleElect  = "KF-C15-stale-election-cert"
+	KFHighQcBlock = "KF-C15-highqc-without-block"
+)
+
+// PacemakerVulnerable reports whether the Byzantine validators alone reach the pacemaker threshold of bft.Pacemaker().
+func PacemakerVulnerable(s *bs.Sim) bool {
+	var f uint64
+	for _, b := range s.Byzantine() {
+		f += s.Cfg.Power[b]
+	}
+	return f > 0 && f >= lib.Uint64ReducePercentage(s.VS.MinimumMaj23, 50)
+}
 
 // Options tune a scenario.
 type Options struct {
@@ -38,6 +56,7 @@ type Result struct {
 	Mode     string // committee mode
 	G1, G2   []int  // boundary groups of correct validators (boundary mode)
 	Cut      bool
+	Excluded map[string]int // inputs left out because of an open known finding (id -> count)
 }
 
 // Header is the readable head of the case descriptor.
@@ -339,7 +358,7 @@ func RunOn(t *rapid.T, opt Options, cfg bs.Config, mode string, g1, g2 []int) *R
 	}
 	s := bs.New(cfg)
 	s.StopAt = opt.CutSteps
-	res := &Result{S: s, Mode: mode, G1: g1, G2: g2}
+	res := &Result{S: s, Mode: mode, G1: g1, G2: g2, Excluded: map[string]int{}}
 	g := &gen{t: t, s: s, opt: opt, res: res, byz: s.Byzantine(), honest: s.Honest(), classes: map[string]bool{}, pl: pl}
 	g.rng = rand.New(rand.NewPCG(rapid.Uint64().Draw(t, "netseed"), 0x5eed))
 	if g.opt.MaxSegments == 0 {
@@ -595,6 +614,10 @@ func (g *gen) craftedReplay(nr *rand.Rand) {
 		if len(cert.BlockHash) == 0 {
 			return
 		}
+		if ph == bs.Commit && cert.Header.Phase != bs.PrecommitVote && ev.Open(KFWrongPhase) {
+			g.res.Excluded[KFWrongPhase]++
+			return
+		}
 		e := s.CraftJustified(d, root, round, ph, cert, root, sub)
 		g.deliverAll(e)
 		g.class("replay:cert-in-new-leader-msg")
@@ -618,7 +641,15 @@ func (g *gen) craftedReplay(nr *rand.Rand) {
 		hq := bs.CloneQC(cert)
 		leader := at[nr.IntN(len(at))]
 		pay := s.ElectionVotePayload(root, round, leader)
-		if p != nil && nr.IntN(3) > 0 {
+		withBlock := nr.IntN(3) > 0
+		if !withBlock && ev.Open(KFHighQcBlock) {
+			g.res.Excluded[KFHighQcBlock]++
+			withBlock = true
+		}
+		if p == nil && ev.Open(KFHighQcBlock) {
+			return
+		}
+		if p != nil && withBlock {
 			hq.Block, hq.Results = p.Block, p.Results
 			pay.Block, pay.Results = p.Block, p.Results
 		}
@@ -645,6 +676,10 @@ func (g *gen) craftedReplay(nr *rand.Rand) {
 		g.deliverAll(s.CraftPropose(d, root, round, just, prop, hq, nil, sub))
 		g.class("replay:stale-election-cert")
 	case 5: // inflated pacemaker round
+		if PacemakerVulnerable(s) && ev.Open(KFPacemaker) {
+			g.res.Excluded[KFPacemaker]++
+			return
+		}
 		g.deliverAll(s.CraftPacemaker(d, root, round+uint64(1+nr.IntN(50)), sub))
 		g.class("byz:inflated-pacemaker")
 	}
@@ -706,6 +741,33 @@ func (g *gen) lossy() {
 	g.script("lossy(p=%.2f,skip=%.2f)", p, skip)
 	g.class("seg:lossy")
 	g.runSeg(segOpt{want: -1, p: p, pm: p, block: p / 2, skip: skip, shuffle: true})
+}
+
+// partition: only a subset of the replicas runs (one or two rounds, lossy among themselves); the others are frozen
+// (slow process / cut off) and fall behind in rounds.
+func (g *gen) partition() {
+	act := g.activeHonest()
+	if len(act) < 2 {
+		g.lossy()
+		return
+	}
+	awake := g.drawSubset(append(append([]int{}, act...), g.byz...), "awake", false)
+	in := map[int]bool{}
+	for _, i := range awake {
+		in[i] = true
+	}
+	k := rapid.IntRange(1, 2).Draw(g.t, "partRounds")
+	p := rapid.SampledFrom([]float64{1, 0.9, 0.5, 0}).Draw(g.t, "partP")
+	g.script("partition(awake=%v,rounds=%d,p=%.2f)", awake, k, p)
+	g.class("seg:partition")
+	for ; k > 0 && !g.done(); k-- {
+		g.segs++
+		nr := rand.New(rand.NewPCG(g.rng.Uint64(), 99))
+		g.s.RunRound(&bs.RoundPolicy{
+			Fire:  func(step, i int) bool { return in[i] },
+			Route: func(e *bs.Env, to int) bool { return in[to] && in[e.From] && e.Kind != "BLOCK" && nr.Float64() < p },
+		})
+	}
 }
 
 // clean: full delivery, natural leader.
@@ -932,8 +994,13 @@ func (g *gen) byzRound(d int, variant string) *bs.ByzLeader {
 			desc += fmt.Sprintf("(hqc=byz-only@%d.%d)", root, r2)
 			g.class("byz:partial-cert-as-highqc")
 		case "wrongphase":
-			bl.WrongPhaseCM = true
-			g.class("byz:wrong-phase-cert-in-commit")
+			if ev.Open(KFWrongPhase) {
+				g.res.Excluded[KFWrongPhase]++
+				desc = "fresh(wrongphase-excluded)"
+			} else {
+				bl.WrongPhaseCM = true
+				g.class("byz:wrong-phase-cert-in-commit")
+			}
 		}
 		bl.Props = []*bs.Proposal{prop}
 		bl.HighQcs = []*lib.QuorumCertificate{hq}
@@ -969,7 +1036,11 @@ func (g *gen) maybeDup() {
 func (g *gen) famLossy() {
 	k := rapid.IntRange(2, 5).Draw(g.t, "rounds")
 	for i := 0; i < k && !g.done(); i++ {
-		g.lossy()
+		if rapid.IntRange(0, 2).Draw(g.t, "part?") == 0 {
+			g.partition()
+		} else {
+			g.lossy()
+		}
 		g.maybeBump(5)
 		g.maybeDup()
 	}
@@ -1040,7 +1111,11 @@ func (g *gen) famWithheld() {
 // F4: partial commit delivery, the rest must re-commit the same block in later rounds under leader changes.
 func (g *gen) famPartialCommit() {
 	for i := rapid.IntRange(0, 1).Draw(g.t, "pre"); i > 0 && !g.done(); i-- {
-		g.lossy()
+		if rapid.Bool().Draw(g.t, "prePart") {
+			g.partition()
+		} else {
+			g.lossy()
+		}
 	}
 	g.lockRound(rapid.Bool().Draw(g.t, "allLock"))
 	g.maybeBump(3)
@@ -1079,6 +1154,8 @@ func (g *gen) famReplay() {
 			}
 		case 2:
 			g.burn()
+		case 3:
+			g.partition()
 		default:
 			g.lossy()
 		}
